@@ -842,7 +842,7 @@ mod api {
         for smart in [false, true] {
             let cfgv = phon_cfg(json!({"smart_quote": smart}));
             crate::verif_driver::reset_user_files();
-            for (w, suffixed) in [("sesh", "seshgulo"), ("kotha", "kothar"), ("\"e\"", "")] {
+            for (w, suffixed) in [("sesh", "seshgulo"), ("kotha", "kothar"), ("\"e\"", ""), ("a", ""), ("o", "")] {
                 for round in 0..2 {
                     o.cases += 1;
                     let mut s = Sess::new(cfgv.clone());
@@ -1304,11 +1304,11 @@ mod api {
             let opts = ["phonetic_suggestion", "include_english", "fixed_suggestion", "fixed_vowel", "fixed_chandra", "fixed_kar", "fixed_old_reph", "fixed_numpad", "fixed_kar_order", "ansi", "smart_quote"];
             let bases: Vec<(&str, Value, Vec<&str>)> = vec![
                 ("phonetic", full("avro_phonetic".into()), vec!["amar", "cool", "\"kotha\"", "academy", ";)", "a", "o"]),
-                ("probhat", full(crate::verif_driver::probhat_layout()), vec!["bab", "tp", "hasi", "\"tp\"", "kuk", ";)"]),
+                ("probhat", full(crate::verif_driver::probhat_layout()), vec!["bab", "tp", "hasi", "\"tp\"", "kuk", ";)", "[k", "k[a", "ru"]),
             ];
             for (bn, base, probes) in &bases { for opt in opts { for first in [false, true] {
                 o.cases += 1;
-                let tag = match opt { "ansi" => "C05 C11 C16 C18", "smart_quote" => "C05 C11 C17", "include_english" => "C05 C11 C16", _ => "C05 C11" };
+                let tag = match opt { "ansi" => "C05 C11 C16 C18", "smart_quote" => "C05 C11 C17", "include_english" => "C05 C11 C16 C15", "fixed_kar_order" => "C05 C11 C14", "fixed_kar" | "fixed_vowel" | "fixed_chandra" => "C05 C11 C12", "fixed_old_reph" => "C05 C11 C13", "fixed_numpad" => "C05 C11 C04", _ => "C05 C11" };
                 let mut a = base.clone(); a[opt] = json!(first);
                 let mut b = base.clone(); b[opt] = json!(!first);
                 crate::verif_driver::reset_user_files();
@@ -1402,6 +1402,38 @@ mod api {
                     }
                 }
             }
+        }
+        // the layout FILE is what counts: a file rewritten in place with the same byte length (two assignments swapped) is read again
+        // by a new context and by a switch back to it -- in the same process
+        {
+            o.cases += 1;
+            let dir = crate::verif_driver::user_dir();
+            std::fs::create_dir_all(&dir).unwrap();
+            let path = format!("{}/verif-layout-copy.json", dir);
+            let text = std::fs::read_to_string(crate::verif_driver::synthetic_layout()).unwrap();
+            std::fs::write(&path, &text).unwrap();
+            let mk = |layout: &str| json!({"layout": layout, "database_dir": crate::verif_driver::data_dir(), "phonetic_suggestion": false, "include_english": false,
+                "fixed_suggestion": false, "fixed_vowel": false, "fixed_chandra": false, "fixed_kar": false, "fixed_old_reph": false,
+                "fixed_numpad": true, "fixed_kar_order": false, "ansi": false, "smart_quote": false});
+            let lone = |sg: &Suggestion| if sg.is_empty() { String::new() } else { sg.get_lonely_suggestion().to_string() };
+            let mut s = Sess::new(mk(&path));
+            let before = { let sg = s.key('t', 0); s.finish(); lone(&sg) };
+            // swap t = ক and i = ত (same byte length, so the file size does not change)
+            let swapped = text.replace("\"Key_t_Normal\": \"\u{0995}\"", "\"Key_t_Normal\": \"@@\"").replace("\"Key_i_Normal\": \"\u{09A4}\"", "\"Key_i_Normal\": \"\u{0995}\"").replace("\"Key_t_Normal\": \"@@\"", "\"Key_t_Normal\": \"\u{09A4}\"");
+            if swapped != text && swapped.len() == text.len() && before == "\u{0995}" {
+                std::fs::write(&path, &swapped).unwrap();
+                s.events.push(json!({"note": "layout file rewritten in place: Key_t_Normal and Key_i_Normal swapped (same byte length)"}));
+                let mut fresh = Sess::new(mk(&path));
+                let a = { let sg = fresh.key('t', 0); fresh.finish(); lone(&sg) };
+                if a != "\u{09A4}" { o.fail(json!({"clause": "C04 a key emits what the layout file assigns to it: a new context reads the file as it is now", "history": fresh.history(), "observed": a, "expected": "\u{09A4}"})); }
+                // the live context: away to the phonetic layout and back
+                s.update(&mk("avro_phonetic"));
+                s.update(&mk(&path));
+                let b = { let sg = s.key('t', 0); s.finish(); lone(&sg) };
+                if b != "\u{09A4}" { o.fail(json!({"clause": "C04 C11 a key emits what the layout file assigns to it: a switch back to the layout reads the file as it is now", "history": s.history(), "observed": b, "expected": "\u{09A4}"})); }
+                o.nontrivial += 1;
+            }
+            let _ = std::fs::remove_file(&path);
         }
         o.sample(json!({"key": 41110, "modifier": 2}));
         o.done()
